@@ -27,6 +27,12 @@
 #include <sys/mman.h>
 #include <sys/syscall.h>
 
+// The in-place fault guard below abandons stack frames (and whatever they
+// own) when a Galois call faults, so the leak check at process exit -- which
+// only a --replay ever reaches, workers leave through _exit -- would add a
+// report of the harness's own doing to every replayed crash finding.
+extern "C" const char* __asan_default_options() { return "detect_leaks=0"; }
+
 namespace c11 {
 
 using sx::fail;
